@@ -13,16 +13,54 @@ From Coq Require Import ZArith NArith List Bool.
 Import ListNotations.
 From V Require Import Model.Val Model.DeclSync Model.DeclYaml Proofs.DeclSyncP Proofs.DeclYamlP Gen.Decl_consts.
 
+(* inputs used by the non-vacuity examples ([..._hyps_sat]) below.
+   ex_entry  = { find: {name: A}, set: {d: x}, sync: { i: [ {find: {name: B}} ] } }
+   ex_groups = { f: [ ex_entry ] }
+   ex_tree   = an object whose list f holds A (without d, without children) and an unrelated Z *)
+Definition s_name : str := [110; 97; 109; 101]%N.
+Definition ex_entry : entry :=
+  Entry [(s_name, [65]%N)] [([100]%N, [120]%N)] (QCons [105]%N (SCons (Entry [(s_name, [66]%N)] [] QNil) SNil) QNil).
+Definition ex_groups : sgroups :=
+  QCons [102]%N (SCons (Entry [(s_name, [65]%N)] [([100]%N, [120]%N)]
+                              (QCons [105]%N (SCons (Entry [(s_name, [66]%N)] [] QNil) SNil) QNil)) SNil) QNil.
+Definition ex_kids : list obj := [Obj [(s_name, [65]%N)] []; Obj [(s_name, [90]%N)] []].
+Definition ex_tree : obj := Obj [] [([102]%N, ex_kids)].
+(* a stream of two instructions with all four marker types, and a two-entry metadata mapping *)
+Definition ex_ins : yvs :=
+  VCons (YMap (KCons [112]%N (YPromise [120]%N) (KCons [115]%N (YNew [84]%N (KCons [118]%N (YStd (SInt 1)) KNil))
+         (KCons [117]%N (YUuid [97; 45; 49]%N) (KCons [102]%N (YFind (KCons s_name (YStd (SStr [33]%N)) KNil)) KNil)))))
+  (VCons (YMap (KCons [112]%N (YUuid [95; 55; 70]%N) (KCons [101]%N (YList (VCons (YPromise [121]%N) VNil)) KNil))) VNil).
+Definition ex_md : ykvs := KCons [118]%N (YStd (SStr [49]%N)) (KCons [119]%N (YStd (SInt 2)) KNil).
+(* a text layer that is not the identity: documents with a length header, refused when the header is wrong *)
+Definition ex_text : Type := (list node * nat)%type.
+Definition ex_emit (docs : list node) : ex_text := (docs, length docs).
+Definition ex_parse (t : ex_text) : res (list node) :=
+  if Nat.eqb (length (fst t)) (snd t) then ROk (fst t) else RErr E_ValueError.
+
 (* 1. a second application of a well-formed sync document leaves the tree exactly as the first one left it *)
 Theorem sync_idempotent : forall g x x1, wf_groups g = true -> sync_groups g x = Some x1 -> sync_groups g x1 = Some x1.
 Proof. exact sync_groups_idempotent. Qed.
 Print Assumptions sync_idempotent.
+(* both hypotheses on one input; the first run does something: A is matched, gets d := x and a new child B *)
+Example sync_idempotent_hyps_sat : exists x1, wf_groups ex_groups = true /\ sync_groups ex_groups ex_tree = Some x1
+  /\ x1 <> ex_tree /\ size ex_tree = 3%nat /\ size x1 = 4%nat.
+Proof.
+  eexists. split; [reflexivity|]. split; [vm_compute; reflexivity|].
+  split; [vm_compute; discriminate|]. split; vm_compute; reflexivity.
+Qed.
 
 (* ... in particular it creates nothing new *)
 Theorem second_run_creates_nothing : forall g x x1 x2, wf_groups g = true ->
   sync_groups g x = Some x1 -> sync_groups g x1 = Some x2 -> x2 = x1 /\ size x2 = size x1.
 Proof. exact second_run_nothing. Qed.
 Print Assumptions second_run_creates_nothing.
+(* immediate from sync_idempotent; the second conjunct follows from the first *)
+Example second_run_creates_nothing_hyps_sat : exists x1 x2, wf_groups ex_groups = true /\
+  sync_groups ex_groups ex_tree = Some x1 /\ sync_groups ex_groups x1 = Some x2 /\ size ex_tree <> size x1.
+Proof.
+  eexists. eexists. split; [reflexivity|]. split; [vm_compute; reflexivity|].
+  split; [vm_compute; reflexivity | vm_compute; discriminate].
+Qed.
 
 (* 2. key lemma: after an entry ran, the object it created from find | set (or the one it matched and
       modified) is the unique match of the same find, and the entry is a fixed point on that list *)
@@ -30,6 +68,16 @@ Theorem created_is_found : forall e l l1, wf_entry e = true -> sync_entry e l = 
   count_matches (e_find e) l1 = 1%nat /\ sync_entry e l1 = Some l1.
 Proof. exact created_or_matched_is_found. Qed.
 Print Assumptions created_is_found.
+(* the matched-and-modified case (A is in the list) and the created case (only Z is) *)
+Example created_is_found_hyps_sat : exists l1, wf_entry ex_entry = true /\ sync_entry ex_entry ex_kids = Some l1
+  /\ l1 <> ex_kids /\ length l1 = 2%nat.
+Proof.
+  eexists. split; [reflexivity|]. split; [vm_compute; reflexivity|].
+  split; [vm_compute; discriminate | vm_compute; reflexivity].
+Qed.
+Example created_is_found_hyps_sat_2 : exists l1, wf_entry ex_entry = true /\
+  sync_entry ex_entry [Obj [(s_name, [90]%N)] []] = Some l1 /\ length l1 = 2%nat.
+Proof. eexists. split; [reflexivity|]. split; vm_compute; reflexivity. Qed.
 
 (* 3. the tag layer: for every stream value built from the marker classes (UUIDs valid as
       UUIDReference.__post_init__ guarantees, new-object markers with a non-empty type hint and no `_type`
@@ -37,17 +85,33 @@ Print Assumptions created_is_found.
 Theorem tag_layer_roundtrip : forall is_uuid v, wf is_uuid v = true -> construct is_uuid (represent v) = ROk v.
 Proof. intros is_uuid. exact (proj1 (roundtrip_all is_uuid)). Qed.
 Print Assumptions tag_layer_roundtrip.
+Example tag_layer_roundtrip_hyps_sat : wf is_uuid_re (YList ex_ins) = true.
+Proof. reflexivity. Qed.
+(* ... and [wf] does reject: a malformed UUID, an empty type hint, a `_type` keyword *)
+Example wf_rejects : wf is_uuid_re (YUuid [33]%N) = false /\ wf is_uuid_re (YNew [] KNil) = false
+  /\ wf is_uuid_re (YNew [84]%N (KCons NEWOBJ_DUMP_KEY (YStd SNull) KNil)) = false.
+Proof. repeat split; reflexivity. Qed.
 
 (* the generated tag tables are mutually consistent (dumper tag of a marker type -> loader -> same type) *)
 Theorem tags_agree : forall k, In k [M_PROMISE; M_UUID; M_NEW; M_FIND] -> assoc_marker (dump_tag k) LOAD_TAGS = Some k.
 Proof. exact tags_agree_all. Qed.
 Print Assumptions tags_agree.
+(* a finite check of the four generated table rows *)
+Example tags_agree_hyps_sat : In M_NEW [M_PROMISE; M_UUID; M_NEW; M_FIND] /\ dump_tag M_NEW <> [].
+Proof. split; [right; right; left; reflexivity | vm_compute; discriminate]. Qed.
 
 (* 4. the document layout: metadata (possibly none) + instructions *)
 Theorem stream_layout_roundtrip : forall is_uuid md ins, wf_kvs is_uuid md = true -> wf_list is_uuid ins = true ->
   load_stream is_uuid (dump_stream md ins) = ROk (YMap md, YList ins).
 Proof. exact stream_roundtrip. Qed.
 Print Assumptions stream_layout_roundtrip.
+(* two-document layout (metadata present) and one-document layout (no metadata) *)
+Example stream_layout_roundtrip_hyps_sat : wf_kvs is_uuid_re ex_md = true /\ wf_list is_uuid_re ex_ins = true
+  /\ length (dump_stream ex_md ex_ins) = 2%nat.
+Proof. repeat split; reflexivity. Qed.
+Example stream_layout_roundtrip_hyps_sat_2 : wf_kvs is_uuid_re KNil = true /\ wf_list is_uuid_re ex_ins = true
+  /\ length (dump_stream KNil ex_ins) = 1%nat.
+Proof. repeat split; reflexivity. Qed.
 
 (* 5. _partial: dump then load through YAML text, for ANY emitter/parser pair that round-trips node
       documents.  That PyYAML is such a pair on the node graphs the dumper produces is the hypothesis
@@ -58,6 +122,22 @@ Theorem dump_load_roundtrip_partial : forall is_uuid (text : Type) (emit : list 
   load is_uuid text parse (dump text emit md ins) = ROk (YMap md, YList ins).
 Proof. exact dump_load. Qed.
 Print Assumptions dump_load_roundtrip_partial.
+(* the conclusion is stream_layout_roundtrip after one rewrite with the hypothesis on emit/parse; that
+   hypothesis is asked for ALL node documents, more than the theorem needs (only dump_stream md ins).
+   All hypotheses on one instance: a parser that can fail, a non-empty metadata mapping, two instructions *)
+Example dump_load_roundtrip_partial_hyps_sat :
+  (forall docs, ex_parse (ex_emit docs) = ROk docs) /\ (exists t e, ex_parse t = RErr e)
+  /\ wf_kvs is_uuid_re ex_md = true /\ wf_list is_uuid_re ex_ins = true.
+Proof.
+  split; [intro docs; unfold ex_parse, ex_emit; cbn [fst snd]; now rewrite Nat.eqb_refl|].
+  split; [exists ([], 1%nat); eexists; reflexivity|]. split; reflexivity.
+Qed.
+Example dump_load_roundtrip_partial_instance :
+  load is_uuid_re ex_text ex_parse (dump ex_text ex_emit ex_md ex_ins) = ROk (YMap ex_md, YList ex_ins).
+Proof.
+  apply dump_load_roundtrip_partial;
+    [exact (proj1 dump_load_roundtrip_partial_hyps_sat) | reflexivity | reflexivity].
+Qed.
 
 (* 6. _refuted without the guard on the type hint: as long as the dumper omits an empty hint and the loader
       insists on the key (both facts are read from the source), a new-object marker with an empty type hint
@@ -66,12 +146,19 @@ Theorem newobj_empty_hint_refuted : NEWOBJ_DUMP_ONLY_IF_TRUTHY = true -> NEWOBJ_
   forall is_uuid, exists v, construct is_uuid (represent v) <> ROk v.
 Proof. exact empty_hint_witness. Qed.
 Print Assumptions newobj_empty_hint_refuted.
+(* NON-VACUITY DEPENDS ON THE SOURCE TREE: the two premises are statements about generated constants.  On a
+   tree whose dumper always writes the `_type` key (NEWOBJ_DUMP_ONLY_IF_TRUTHY = false — the repaired
+   decl.py) the first premise is false and the theorem above says nothing; the empty hint then survives.
+   This example is written so that it compiles for every value of the two constants and says which case
+   the tree under check is in: either both premises hold, or the empty-hint marker round-trips. *)
+Example newobj_empty_hint_refuted_hyps_status :
+  (NEWOBJ_DUMP_ONLY_IF_TRUTHY && NEWOBJ_LOAD_REQUIRED = true)
+  \/ (NEWOBJ_DUMP_ONLY_IF_TRUTHY && NEWOBJ_LOAD_REQUIRED = false
+      /\ forall is_uuid, construct is_uuid (represent (YNew [] KNil)) = ROk (YNew [] KNil)).
+Proof. vm_compute. first [left; reflexivity | right; split; [reflexivity | intros; reflexivity]]. Qed.
 
 (* non-vacuity *)
-Definition s_name : str := [110; 97; 109; 101]%N.
-Definition ex_groups : sgroups :=
-  QCons [102]%N (SCons (Entry [(s_name, [65]%N)] [([100]%N, [120]%N)]
-                              (QCons [105]%N (SCons (Entry [(s_name, [66]%N)] [] QNil) SNil) QNil)) SNil) QNil.
+(* [s_name], [ex_groups] are defined at the top of the file, with the other inputs of the non-vacuity examples *)
 Example ex_wf : wf_groups ex_groups = true. Proof. reflexivity. Qed.
 Example ex_creates_then_finds : exists x1, sync_groups ex_groups (Obj [] []) = Some x1 /\ size x1 = 3%nat
                                            /\ sync_groups ex_groups x1 = Some x1.
